@@ -89,6 +89,11 @@ func OpenReadable(reader io.ReaderAt, opts ...carv2.Option) (ReadableCar, error)
 	sc := &StorageCar{opts: carv2.ApplyOptions(opts...)}
 
 	rr := internalio.ToReadSeeker(reader)
+	// The archive starts at offset 0 of the io.ReaderAt, wherever the read position of a reader
+	// that also is an io.ReadSeeker happens to be.
+	if _, err := rr.Seek(0, io.SeekStart); err != nil {
+		return nil, err
+	}
 	header, err := carv1.ReadHeader(rr, sc.opts.MaxAllowedHeaderSize)
 	if err != nil {
 		return nil, err
